@@ -291,6 +291,15 @@ Definition to_absolute (s : st) (p : point) : point :=
   | Relative => padd (resolve (pos s)) (resolve p)
   | Absolute => replace (resolve (pos s)) p
   end.
+(* to_absolute_list: a sequence of points in the current distance mode to absolute points (polyline / spline arguments):
+   relative points accumulate, absolute points replace the coordinates they give *)
+Fixpoint abs_list (rel : bool) (cur : point) (pts : list point) : list point :=
+  match pts with
+  | [] => []
+  | p :: pts' => let c := if rel then padd cur (resolve p) else replace cur p in c :: abs_list rel c pts'
+  end.
+Definition to_absolute_list (s : st) (pts : list point) : list point :=
+  abs_list (match dm s with Relative => true | Absolute => false end) (resolve (pos s)) pts.
 Definition to_distance_mode (s : st) (p : point) : point :=
   match dm s with
   | Relative => psub (resolve p) (resolve (pos s))
